@@ -37,3 +37,8 @@ package sema
 //@ schema fixlit(N=UFix64, S=8, MIN=0, MAX=pow2(64)-1, UNSIGNED=true)
 //@ schema fixlit(N=Fix128, S=24, MIN=-pow2(127), MAX=pow2(127)-1, UNSIGNED=false)
 //@ schema fixlit(N=UFix128, S=24, MIN=0, MAX=pow2(128)-1, UNSIGNED=true)
+
+// ---- C51: source positions of the checker's occurrence index, ordered lexicographically by (line, column); the
+// contract of Compare is the interface contract intervalst.Position.Compare (proved here for this implementor).
+//@ needs C51
+//@ typeint Position: self.Line * pow2(64) + self.Column
